@@ -329,6 +329,10 @@ def main(argv):
         if n_nt < 2 or cov["evaluations"] < 1 or not cov["samples"]:
             print("HARNESS-ERROR vacuous run (too few non-trivial cases)")
             return 2
+        missing = [c for c in getattr(mod, "REQUIRED_CLASSES", []) if not tot["classes"].get(c)]
+        if missing and not violations:
+            print(f"HARNESS-ERROR generator did not cover required case classes: {missing}")
+            return 2
         for sig, text in known_lines:
             print(f"KNOWN-FINDING: property={prop} {text} [sig={sig}]")
         for f, path in violations:
